@@ -1,5 +1,6 @@
 import PqV.Spec.File
 import PqV.Impl.Kernels
+import PqV.Gen.WriteLayout
 /-
   Impl.WritePage — code-shaped model of what `writer.write_column` lays down for ONE flat column
   chunk, before compression: the optional dictionary page, and for every page the definition-level
@@ -48,9 +49,9 @@ def writerPlain (ptype tl : Nat) (vals : List Cell) : List Nat :=
 /-- `encode_dict`: width byte = 8 · itemsize, ONE bit-packed run announcing ⌈n/8⌉ groups, the codes as
     little-endian items (`data.values.tobytes()`), zero bytes up to whole groups of 8 -/
 def writerDictData (item : Nat) (codes : List Nat) : List Nat :=
-  let groups := (codes.length + 7) / 8
-  [item * 8] ++ uvarintEnc (groups * 2 + 1) ++ codes.flatMap (leBytes item)
-    ++ List.replicate ((groups * 8 - codes.length) * item) 0
+  -- width byte, run header and amount of padding are REGENERATED from `encode_dict` (Gen.WriteLayout)
+  [(PqV.Gen.WriteLayout.dictWidthByte item).toNat] ++ uvarintEnc (PqV.Gen.WriteLayout.dictHeader codes.length item).toNat
+    ++ codes.flatMap (leBytes item) ++ List.replicate (PqV.Gen.WriteLayout.dictPad codes.length item).toNat 0
 
 def writerValues (c : ColSpec) (vals : List Cell) : List Nat :=
   match c.dictItem with
@@ -62,7 +63,7 @@ def writerLevels (c : ColSpec) (cells : List Cell) : List Nat :=
 
 /-- uncompressed payload of one data page -/
 def writerPageBody (c : ColSpec) (cells : List Cell) : List Nat :=
-  writerLevels c cells ++ writerValues c (nonNull cells) ++ (if c.v2 then [] else List.replicate 8 0)
+  writerLevels c cells ++ writerValues c (nonNull cells) ++ (if c.v2 then [] else List.replicate PqV.Gen.WriteLayout.v1Trailer 0)
 
 /-- the numbers `write_column` puts into the page header (offsets are not part of the model) -/
 def writerPageInfo (c : ColSpec) (cells : List Cell) : PageInfo :=
